@@ -46,8 +46,17 @@ RAW = {
     "crlf": "parameters:\r\n  a: 1\r\n",
     "ref_into_list": "parameters:\n  l: [1]\n  r: \"${l:0}\"\n  r2: \"${l:x:y}\"\n",
 }
-KNOWN = {"tag": "D5", "tag_map": "D5", "tag_key": "D5", "binary": "D5", "const_dup": "D6", "const_dup_nested": "D6",
-         "complex_key_embed": "D7", "map_key_embed": "D7"}
+# loop shapes: every reference cycle must come back as an error, never recurse without bound
+LOOPS = [
+    G.P({"a": "${a}"}), G.P({"a": "${b}", "b": "${a}"}), G.P({"a": "x${a}"}), G.P({"a": ["${a}"]}), G.P({"a": {"k": "${a:k}"}}),
+    G.P({"a": "${c}"}, {"a": {"z": 1}}, {"c": {"b": "${a:b}"}}),                 # loop through a layered key during a path lookup
+    G.P({"a": "${c}", "c": {"b": "${a:b}"}}, {"a": "${c}"}),
+    G.P({"a": {"b": "${c}"}}, {"a": {"b": "${c}"}}, {"c": "${a:b}"}),
+    G.P({"t": "${u}"}, {"t": "${u}"}, {"u": "${t:k}"}),
+    G.P({"sel": "a", "a": "${${sel}}"}), G.P({"a": "${b:${a}}", "b": {"x": 1}}),
+    G.P({"a": "${b}"}, {"b": [1]}, {"b": "${a}"}),
+    G.P({"l": ["${m:k}"], "m": {"k": "${l}"}}),
+]
 
 
 def crash_case(files, faults=None, **extra):
@@ -122,6 +131,23 @@ class C11(Prop):
         return corpus_cases() + super().corpus()
 
     def cases(self, tier, seed):
+        for c in LOOPS:
+            yield dict(c)
+        # cyclic reference graphs at every placement (same generator as C08, cyclic-heavy)
+        M = 400 if tier == "quick" else 10000
+        for i in range(M):
+            r = Rng(seed, "C11loops", i)
+            if i % 2 == 0:
+                layers = G.shaped_stack(r, r.range(2, 5), r.range(1, 3), r.range(0, 2), 0, p_stray=3, strs=["x", "y", "a"])
+                G.add_refs(r, layers, r.range(2, 8), p_cyclic=60, p_dangling=2, p_embedded=30)
+            else:
+                layers = G.clone_point_diamond(r)
+                # close a cycle through the shared target
+                layers[0]["m"].append(["common2", "${t}"])
+                for e in layers[0]["m"]:
+                    if e[0] == "common" and r.chance(1, 2):
+                        e[1] = r.choice(["${t}", {"m": [["k", "${t}"]]}, ["${u}"], "${t:k}"])
+            yield {"op": "params", "layers": layers}
         N = 150 if tier == "quick" else 4000
         kinds = ["delete", "truncate", "garbage", "nonutf8", "chmod", "dir"]
         raws = list(RAW.items())
@@ -146,6 +172,17 @@ class C11(Prop):
             yield crash_case(files, faults=faults, tag=tag)
 
     def judge(self, req, impl, reply):
+        if req.get("op") == "params":
+            if isinstance(impl, dict) and "crash" in impl:
+                return dict(agree=True, spec_ok=None, impl_oracle=False, concrete=True,
+                            why="rendering killed the process (rc=%s): %s" % (impl["crash"], impl.get("stderr", "").strip()[-160:]))
+            if isinstance(impl, dict) and "panic" in impl:
+                return dict(agree=True, spec_ok=None, impl_oracle=False, concrete=True, why="panic: %s" % impl["panic"][:200])
+            if isinstance(impl, dict):
+                for part in ("merged", "rendered"):
+                    if isinstance(impl.get(part), dict) and "panic" in impl[part]:
+                        return dict(agree=True, spec_ok=None, impl_oracle=False, concrete=True, why="panic: %s" % impl[part]["panic"][:200])
+            return dict(agree=True, spec_ok=None, why="")
         if not isinstance(impl, dict):
             return dict(agree=False, spec_ok=None, why="no observation", skip=True)
         if "crash" in impl:
@@ -161,6 +198,9 @@ class C11(Prop):
         return True
 
     def tags(self, req, impl, reply):
+        if req.get("op") == "params":
+            k = core.norm_result((impl or {}).get("rendered"), True) if isinstance(impl, dict) else ("?",)
+            return ["in:refgraph", "out:" + ("error:" + k[1][0] if k[0] == "err" else k[0])]
         t = ["in:" + req.get("tag", "?").split(":")[0]]
         if isinstance(impl, dict):
             if "crash" in impl:
@@ -177,10 +217,6 @@ class C11(Prop):
         tag = req.get("tag", "")
         fid = finding.get("id")
         name = tag.split(":")[-1].split("+")[0]
-        if fid in ("D5", "D6", "D7"):
-            msg = (impl.get("panic") or "") if isinstance(impl, dict) else ""
-            sig = {"D5": "Tagged YAML values are not supported", "D6": "Can't overwrite constant key", "D7": "as JSON key"}[fid]
-            return sig in msg
         if fid == "D8":
             return req.get("chain", 0) >= 5000 and isinstance(impl, dict) and "crash" in impl
         if fid == "D10":
